@@ -221,7 +221,7 @@ func TestC11Lifecycle(t *testing.T) {
 						ended = false
 					}
 				case "second-connect":
-					c.Send(&packet.Connect{Header: &packet.Header{}, ClientId: []byte("X"), KeepaliveTimer: p.K, Clean: true})
+					c.SendRaw(EncodeConnect(&packet.Connect{Header: &packet.Header{}, ClientId: []byte("X"), KeepaliveTimer: p.K, Clean: true}))
 				case "displaced-same-node", "displaced-other-node":
 					release() // proviso: the accepting node has learned of the earlier session
 					if p.Gossip != "auto" {
